@@ -258,6 +258,55 @@ func runConcBig(r *Rng, g *EvGen) {
 	emit(line)
 }
 
+// racing pairs: an event and a deletion request of its author naming it are offered at the same moment by two
+// goroutines, 120 pairs in a row on a store without eviction.  Whichever call is linearized first, the event must be
+// gone in the end (refused, or removed by the request): the final listing is judged.
+func runConcPairs(r *Rng, g *EvGen) {
+	g.made = nil
+	const pairs = 120
+	c := mocrelay.NewEventCache(4 * pairs)
+	var xs, ds []*mocrelay.Event
+	for i := 0; i < pairs; i++ {
+		x := g.Event()
+		x.Kind, x.Tags = 1, []mocrelay.Tag{}
+		g.nextID++
+		d := &mocrelay.Event{ID: eventID(g.nextID), Pubkey: x.Pubkey, CreatedAt: x.CreatedAt, Kind: 5, Content: "del",
+			Sig: sig128(g.nextID), Tags: []mocrelay.Tag{{"e", x.ID}}}
+		xs, ds = append(xs, x), append(ds, d)
+	}
+	gates := make([]chan struct{}, pairs)
+	for i := range gates {
+		gates[i] = make(chan struct{})
+	}
+	var wg sync.WaitGroup
+	for _, side := range [][]*mocrelay.Event{xs, ds} {
+		wg.Add(1)
+		go func(evs []*mocrelay.Event) {
+			defer wg.Done()
+			for i, e := range evs {
+				<-gates[i]
+				c.Add(e)
+			}
+		}(side)
+	}
+	for i := range gates {
+		close(gates[i]) // both goroutines are released for pair i at once
+		if i%16 == 15 {
+			runtime.Gosched()
+		}
+	}
+	wg.Wait()
+	l := c.Find([]*mocrelay.ReqFilter{{}})
+	if l == nil {
+		l = []*mocrelay.Event{}
+	}
+	line := M{"op": "concbig", "cap": 4 * pairs, "ops": []any{concCall{K: "find", Fs: []*mocrelay.ReqFilter{{}}, Inv: 1, Res: 2, Out: M{"res": evsJ(l)}}.J()}}
+	if raceSeen() {
+		line["race"] = true
+	}
+	emit(line)
+}
+
 func init() {
 	props["C15"] = propRunner{
 		gen: func(r *Rng, n int, tier string) {
@@ -265,6 +314,8 @@ func init() {
 			for i := 0; i < n; i++ {
 				if i%500 == 499 {
 					runConcBig(r, g)
+				} else if i%250 == 100 {
+					runConcPairs(r, g)
 				} else {
 					runConcPlan(genConcPlan(r, g))
 				}
